@@ -327,6 +327,10 @@ func (w *c28Worker) run(bi int, beh []map[string]any, res *vh.Result) {
 				}
 			}
 			for _, e := range nd.jlSince(jlMark[ni]) {
+				if !strings.HasSuffix(e.Ch, suffix) {
+					// a leave of the previous behaviour's connections (their close() may still be publishing)
+					continue
+				}
 				name, ok := byID[e.Client]
 				if !ok {
 					name = "?" + e.Client
@@ -350,13 +354,20 @@ func (w *c28Worker) run(bi int, beh []map[string]any, res *vh.Result) {
 				}
 			}
 		}
+		connOf := func(e string) string {
+			c := e[strings.IndexByte(e, '@')+1:]
+			if i := strings.IndexByte(c, ' '); i >= 0 {
+				c = c[:i]
+			}
+			return c
+		}
 		cmp := func(aspect string, want, got []string) {
 			miss, extra := diffLists(want, got)
 			for _, e := range miss {
-				mm = append(mm, c28Mismatch{aspect, e[strings.IndexByte(e, '@')+1:], fmt.Sprintf("%s %q expected, not observed", aspect, e)})
+				mm = append(mm, c28Mismatch{aspect, connOf(e), fmt.Sprintf("%s %q expected, not observed", aspect, e)})
 			}
 			for _, e := range extra {
-				mm = append(mm, c28Mismatch{aspect, e[strings.IndexByte(e, '@')+1:], fmt.Sprintf("%s %q observed, not expected", aspect, e)})
+				mm = append(mm, c28Mismatch{aspect, connOf(e), fmt.Sprintf("%s %q observed, not expected", aspect, e)})
 			}
 		}
 		cmp("callback", wantCb, gotCb)
